@@ -58,6 +58,9 @@ func (f *Frame) step(st *State, instr ssa.Instruction) bool {
 	case *ssa.Store:
 		pt := ins.Addr.Type().Underlying().(*types.Pointer).Elem()
 		x.nilCheck(f, st, ins, f.val(ins.Addr))
+		if a, ok := f.val(ins.Addr).(*Ptr); !ok || a.Cell == nil {
+			x.shareValue(f.val(ins.Val))
+		}
 		x.store(st, f.val(ins.Addr), pt, f.val(ins.Val))
 		return true
 	case *ssa.FieldAddr:
@@ -137,10 +140,37 @@ func (f *Frame) step(st *State, instr ssa.Instruction) bool {
 		for _, a := range ins.Call.Args {
 			d.args = append(d.args, f.val(a))
 		}
+		for _, li := range f.loops {
+			if li.blocks[f.cur] {
+				d.repeated = true
+			}
+		}
+		if !d.repeated {
+			for _, o := range f.defers {
+				if o.repeated {
+					unsupported("defer after a loop that registers deferred calls")
+				}
+			}
+		} else {
+			for _, o := range f.defers {
+				if o.call == ins {
+					return true // the loop body is executed once per cut; one record is enough
+				}
+			}
+			d.pc = x.B.True()
+		}
 		f.defers = append(f.defers, d)
 		return true
 	case *ssa.RunDefers:
-		return f.runDefers(st, false)
+		f.sawRepeated = false
+		if !f.runDefers(st, false) {
+			return false
+		}
+		if f.sawRepeated {
+			f.sawRepeated = false
+			f.exitPanic(st.clone(), "a deferred call registered in a loop may panic", ins, f.panicValue())
+		}
+		return true
 	case *ssa.MakeMap:
 		ref := x.allocRef(st, "map")
 		mt := ins.Type().Underlying().(*types.Map)
